@@ -1062,7 +1062,39 @@ pub fn gen_long(rng: &mut Rng, n: usize, variant: u64) -> Case {
         }
     };
     let class;
-    match variant % 4 {
+    match variant % 5 {
+        4 => {
+            // local calls and helper-free returns located beyond pc 65535 (return address / call
+            // target arithmetic at high pcs), forward and backward
+            class = "long/call-high";
+            // callee A near the start (backward call target)
+            v.push(Insn::new(JA, 0, 0, 3, 0));
+            let callee_a = v.len();
+            v.push(Insn::new(ADD64_IMM, 0, 0, 0, 1000));
+            v.push(Insn::new(MOV64_REG, 0, 0, 0, 0));
+            v.push(Insn::new(EXIT, 0, 0, 0, 0));
+            v.push(Insn::new(MOV64_IMM, 0, 0, 0, 1));
+            v.push(Insn::new(LDDW, 6, 0, 0, 0x1234));
+            v.push(Insn::new(0, 0, 0, 0, 0x77));
+            while v.len() + 24 < n {
+                v.push(Insn::new(ADD64_IMM, 0, 0, 0, 1));
+            }
+            // backward call to A from a high pc
+            let at = v.len();
+            v.push(Insn::new(CALL, 0, 1, 0, (callee_a as i64 - (at as i64 + 1)) as i32));
+            v.push(Insn::new(ADD64_IMM, 0, 0, 0, 3));
+            // forward call to B (placed after the final exit)
+            let at2 = v.len();
+            v.push(Insn::new(CALL, 0, 1, 0, 0));
+            v.push(Insn::new(ADD64_REG, 0, 6, 0, 0)); // r6 must have survived both calls
+            v.push(Insn::new(EXIT, 0, 0, 0, 0));
+            let callee_b = v.len();
+            v[at2].imm = (callee_b as i64 - (at2 as i64 + 1)) as i32;
+            v.push(Insn::new(LDDW, 6, 0, 0, -1));
+            v.push(Insn::new(0, 0, 0, 0, -1));
+            v.push(Insn::new(ADD64_IMM, 0, 0, 0, 70000));
+            v.push(Insn::new(EXIT, 0, 0, 0, 0));
+        }
         0 => {
             // straight line with chained maximal forward jumps: every 32768th instruction jumps
             // +32767 (skipping a marked block), so the pc sequence crosses 2^15 and 2^16
